@@ -157,13 +157,23 @@ namespace occa {
       }
 
       bool withLauncher::isLastInnerLoop(forStatement &forSmnt) {
-        blockStatement &parent = *(forSmnt.up);
-        for(int smntIndex = forSmnt.childIndex()+1; smntIndex<parent.size(); smntIndex++) {
-          if (statementArray::from(*parent[smntIndex])
-                .flatFilterByAttribute("inner")
-                .length()) {
-            return false;
+        // Look at what follows the loop in its block and in every enclosing block
+        // of the kernel: an [@inner] loop nested in an if/block can be followed by
+        // one outside of it
+        statement_t *smnt = &forSmnt;
+        while (smnt->up
+               && !(smnt->type() & statementType::functionDecl)) {
+          blockStatement &parent = *(smnt->up);
+          // elif/else statements are not children of their if statement
+          const int childIndex = smnt->childIndex();
+          for(int smntIndex = childIndex+1; (0 <= childIndex) && (smntIndex<parent.size()); smntIndex++) {
+            if (statementArray::from(*parent[smntIndex])
+                  .flatFilterByAttribute("inner")
+                  .length()) {
+              return false;
+            }
           }
+          smnt = &parent;
         }
         return true;
       }
